@@ -451,6 +451,43 @@ def replay_snippet(contract_module, contract_index, concrete_args):
     )
 
 
+def clone_value(v, memo):
+    """per-path copy of the mutable heap reachable from an argument (heap objects, harness objects, containers);
+    symbolic scalars and z3 terms are immutable and shared"""
+    import copy as _copy
+    if isinstance(v, (SInt, SBool, SVal, SStr)) or v is None or isinstance(v, (int, str, bytes, float, bool, type)):
+        return v
+    k = id(v)
+    if k in memo:
+        return memo[k]
+    if isinstance(v, SIte):
+        r = SIte(v.c, None, None)
+        memo[k] = r
+        r.a = clone_value(v.a, memo); r.b = clone_value(v.b, memo)
+        return r
+    if isinstance(v, list):
+        r = []
+        memo[k] = r
+        r.extend(clone_value(x, memo) for x in v)
+        return r
+    if isinstance(v, tuple) and type(v) is tuple:
+        return tuple(clone_value(x, memo) for x in v)
+    if isinstance(v, dict) and type(v) is dict:
+        r = {}
+        memo[k] = r
+        for kk, x in v.items():
+            r[kk] = clone_value(x, memo)
+        return r
+    if isinstance(v, Sym) and hasattr(v, "__dict__"):
+        r = _copy.copy(v)
+        memo[k] = r
+        for kk, x in list(v.__dict__.items()):
+            if isinstance(x, (list, dict, tuple, Sym)):
+                r.__dict__[kk] = clone_value(x, memo)
+        return r
+    return v
+
+
 # ---------------------------------------------------------------- verification
 class Verifier:
     def __init__(self, report, prop, contract_module, seed=0):
@@ -458,9 +495,13 @@ class Verifier:
         self.it = C.Interp()
 
     def invoke(self, it, contract, fn, argvalues):
+        # every explored path runs on its own copy of the argument heap; the clauses of that path see the same copy
+        memo = {}
+        args = [clone_value(v, memo) for v in argvalues]
+        it.st.ghost["__args__"] = args
         if contract.call:
-            return contract.call(it, fn, argvalues)
-        return it.call(fn, argvalues, {})
+            return contract.call(it, fn, args)
+        return it.call(fn, args, {})
 
     def verify(self, contract, index, shard=(0, 1)):
         rep = self.report
@@ -671,7 +712,7 @@ class Verifier:
     def path_obligations(self, contract, argvalues, p):
         """-> [(name, pc, claim, kind)]"""
         it = self.it
-        env = clause_env(contract, argvalues)
+        env = clause_env(contract, p.st.ghost.get("__args__", argvalues))
         env["ghost"] = p.st.ghost
         out = []
 
